@@ -32,7 +32,44 @@ BIN = ("add", "sub", "mul", "vdot")
 UN = ("scale", "addc", "mulc", "ptw", "lin", "sum", "getKey", "putKey", "sqnorm", "quad", "gauss")
 
 
+def keys_read(t):
+    """{key: size} of the environment keys a tree reads (variables under a chain's `f` read the chain's intermediate)"""
+    out = {}
+
+    def rec(t):
+        t = expand(t)
+        if t["t"] == "chain":
+            rec(t["g"])
+            return
+        if t["t"] == "var":
+            out.setdefault(t["k"], t["n"])
+        for c in children(t):
+            rec(c)
+    rec(t)
+    return out
+
+
+def expand(t):
+    """`pinsert` = `F @ G` where G's target differs from F's domain (Operator.partial_insert):
+    (F + id on the keys of G's target that F does not read) o (G + id on the keys F reads that G does not produce)"""
+    if t["t"] != "pinsert":
+        return t
+    k1, k2 = keys_read(t["f"]), dom(t["g"])
+    f2, g2 = t["f"], t["g"]
+    for k in sorted(set(k2) - set(k1)):
+        f2 = dict(t="add", a=f2, b=dict(t="putKey", k=k, a=dict(t="var", k=k, n=k2[k])))
+    for k in sorted(set(k1) - set(k2)):
+        g2 = dict(t="add", a=g2, b=dict(t="putKey", k=k, a=dict(t="var", k=k, n=k1[k])))
+    return dict(t="chain", f=f2, g=g2)
+
+
+def strip(t):
+    """copy of a tree without the cached expansions (what is stored in cases / replays)"""
+    return {k: (strip(v) if isinstance(v, dict) else v) for k, v in t.items() if k != "_x"}
+
+
 def children(t):
+    t = expand(t)
     if t["t"] in BIN:
         return [t["a"], t["b"]]
     if t["t"] == "chain":
@@ -43,6 +80,7 @@ def children(t):
 
 
 def nodes(t):
+    t = expand(t)
     yield t
     for c in children(t):
         yield from nodes(c)
@@ -61,6 +99,7 @@ def union(d1, d2):
 
 def dom(t):
     """target domain {key: size} of a tree; single-domain targets use the key ''"""
+    t = expand(t)
     k = t["t"]
     if k == "var":
         return {"": t["n"]}
@@ -97,6 +136,7 @@ def fl(a):
 
 def ship(t):
     """tree with python floats -> tree with bit patterns (what the Lean driver reads)"""
+    t = expand(t)
     r = {}
     for k, v in t.items():
         if k in ("a", "b", "f", "g") and isinstance(v, dict):
@@ -144,9 +184,39 @@ class Builder:
             return ift.makeField(self.sp(self.indom[""]), np.asarray(x[""]))
         return ift.MultiField.from_dict({k: ift.makeField(self.sp(n), np.asarray(x[k])) for k, n in self.indom.items()})
 
+    def flip(self, t, salt):
+        """deterministic coin per node: which of the library's equivalent spellings to use"""
+        import hashlib, json
+        h = hashlib.sha1((json.dumps(strip(t), sort_keys=True, default=str) + salt).encode()).digest()
+        return h[0] & 1
+
     def build(self, t):
         ift = self.ift
         k = t["t"]
+        # sugar of Operator (__truediv__, __rtruediv__, __pow__, __rpow__, __abs__, __neg__, __mul__/__add__/__sub__ with
+        # numbers and fields): same mathematics as the plain constructors below
+        if k == "mul" and t["b"]["t"] == "ptw" and t["b"]["f"] == "reciprocal" and self.flip(t, "div"):
+            return self.build(t["a"]) / self.build(t["b"]["a"])
+        if k == "ptw" and t["f"] == "reciprocal" and self.flip(t, "rdiv"):
+            return 1.0 / self.build(t["a"])
+        if k == "ptw" and t["f"] == "power" and self.flip(t, "pow"):
+            return self.build(t["a"]) ** t["p"][0]
+        if k == "ptw" and t["f"] == "abs" and self.flip(t, "abs"):
+            return abs(self.build(t["a"]))
+        if (k == "ptw" and t["f"] == "exp" and t["a"]["t"] == "mul" and t["a"]["b"]["t"] == "ptw"
+                and t["a"]["b"]["f"] == "log" and self.flip(t, "oppow")):
+            return self.build(t["a"]["b"]["a"]) ** self.build(t["a"]["a"])
+        if k == "ptw" and t["f"] == "exponentiate" and self.flip(t, "rpow"):
+            return t["p"][0] ** self.build(t["a"])
+        if k == "scale" and t["c"] == -1.0 and self.flip(t, "neg"):
+            return -self.build(t["a"])
+        if k == "scale" and self.flip(t, "nummul"):
+            return t["c"] * self.build(t["a"])
+        if k == "addc" and self.flip(t, "fieldadd"):
+            a, f = self.build(t["a"]), self.field(t["c"])
+            return (a - f) if t["neg"] else (a + f)
+        if k == "mulc" and self.flip(t, "fieldmul"):
+            return self.build(t["a"]) * self.field(t["d"])
         if k == "var":
             if self.single:
                 return ift.ScalingOperator(self.sp(t["n"]), 1.)
@@ -184,6 +254,17 @@ class Builder:
             return self.build(t["a"])[t["k"]]
         if k == "putKey":
             return self.build(t["a"]).ducktape_left(t["k"])
+        if k == "pinsert":
+            inner = Builder(keys_read(t["f"]), self.space)
+            F, G = inner.build(t["f"]), self.build(t["g"])
+            if F.domain is G.target:
+                return F @ G
+            # Operator.__matmul__ reaches partial_insert only for non-linear operands (LinearOperator.__matmul__ builds a
+            # ChainOperator and insists on equal domains), so it is called directly when both are linear
+            from nifty.cl.operators.linear_operator import LinearOperator
+            if isinstance(F, LinearOperator) and isinstance(G, LinearOperator):
+                return F.partial_insert(G)
+            return F @ G
         if k == "chain":
             g = self.build(t["g"])
             inner = Builder(dom(t["g"]), self.space)
@@ -338,6 +419,7 @@ def pyeval(t, env):
 def _pyeval(t, env):
     """numpy reference evaluation used ONLY to steer generation (argument ranges of point-wise functions)"""
     from nifty.cl.pointwise import ptw_dict
+    t = expand(t)
     k = t["t"]
     if k == "var":
         return {"": np.asarray(env[t["k"]], dtype=np.float64)}
@@ -479,8 +561,18 @@ class Gen:
             a = self.single(n, env, depth - 1)
             t = self.ptw_node(a, env)
             return t if t is not None else a
+        if c < 0.63 and depth >= 2:
+            # a ** b with both operands depending on the input: the library spells it exp(b * log(a))
+            a = self.single(n, env, depth - 2)
+            va = pyeval(a, env)[""]
+            if np.all(va > 0.2) and np.all(va < 6):
+                b = self.single(n, env, depth - 2)
+                t = dict(t="ptw", f="exp", p=[], a=dict(t="mul", a=b, b=dict(t="ptw", f="log", p=[], a=a)))
+                out = pyeval(t, env)[""]
+                if _ok_all(out) and np.all(np.abs(pyeval(t["a"], env)[""]) < 4):
+                    return t
         if c < 0.66:
-            return dict(t="scale", c=r.choice([-2.0, -0.5, 0.25, 0.5, 1.5, 2.0, 3.0]), a=self.single(n, env, depth - 1))
+            return dict(t="scale", c=r.choice([-2.0, -1.0, -1.0, -0.5, 0.25, 0.5, 1.5, 2.0, 3.0]), a=self.single(n, env, depth - 1))
         if c < 0.72:
             return dict(t="addc", c=self.vec(n), neg=r.random() < 0.5, a=self.single(n, env, depth - 1))
         if c < 0.78:
@@ -574,6 +666,19 @@ class Gen:
                     for _ in range(r.choice([1, 1, 2])):
                         t = dict(t="add", a=t, b=lh(env, depth - 2))
                 wm = r.random() < 0.85
+            elif c < 0.27 and len(env) >= 2 and depth >= 3:
+                # Operator.partial_insert: F @ G with G.target != F.domain (both multi-domain)
+                gk = r.sample(["u", "v"], r.choice([1, 2]))
+                g = self.multi({k: r.choice([1, 2, 3]) for k in gk}, env, depth - 2)
+                env2 = pyeval(g, env)
+                if not all(_ok_all(v) for v in env2.values()):
+                    continue
+                envf = {gk[0]: env2[gk[0]]}
+                if r.random() < 0.7:
+                    ka = r.choice(sorted(env))
+                    envf[ka] = env[ka]
+                f = self.multi({k: r.choice([1, 2, 3]) for k in r.sample(["p", "q"], r.choice([1, 2]))}, envf, depth - 2)
+                t = dict(t="pinsert", f=f, g=g)
             elif c < 0.45:
                 t = self.scalar(env, depth)
                 if r.random() < 0.5:   # sums of energies: metric propagation through _OpSum / _LikelihoodSum
@@ -590,7 +695,7 @@ class Gen:
             out = pyeval(t, env)
             if not all(_ok_all(v) for v in out.values()):
                 continue
-            return dict(indom={k: len(v) for k, v in env.items()}, x={k: fl(v) for k, v in env.items()}, expr=t,
+            return dict(indom={k: len(v) for k, v in env.items()}, x={k: fl(v) for k, v in env.items()}, expr=strip(t),
                         wm=wm, space=r.choice(["U", "U", "R"]))
         raise RuntimeError("generator exhausted")
 
@@ -601,6 +706,7 @@ def lin_arith(b, t, base, rng=None):
     `sum`, `__getitem__`, `__truediv__`, `__pow__`, `__neg__`, scalar and field operands) instead of building an
     operator tree; nodes without a Linearization method apply the one-node operator to the Linearization."""
     ift = b.ift
+    t = expand(t)
     k = t["t"]
     rec = lambda s: lin_arith(b, s, base, rng)
     if k == "var":
@@ -622,6 +728,8 @@ def lin_arith(b, t, base, rng=None):
         if c in (0.5, 0.25, 2.0) and rng is not None and rng.random() < 0.5:
             return la / (1.0 / c)                                   # __truediv__ by a scalar
         return c * la if (rng is None or rng.random() < 0.5) else la * c
+    if k == "addc" and not t["neg"] and t["a"]["t"] == "scale" and t["a"]["c"] == -1.0:
+        return b.field(t["c"]) - rec(t["a"]["a"])                    # __rsub__
     if k == "addc":
         la = rec(t["a"])
         f = b.field(t["c"])
